@@ -1,0 +1,224 @@
+//go:build verif
+
+// Contracts for package channel, read by the verification-condition generator
+// in /verif (govc). This file contains comments only and is compiled only with
+// the build tag "verif".
+
+package channel
+
+//@ func CloneBals
+//@   requires forall i int :: 0 <= i && i < len(orig) ==> orig[i] != nil
+//@   ensures (orig == nil) == (result == nil)
+//@   ensures len(result) == len(orig)
+//@   ensures orig != nil ==> fresh(arr(result)) && off(result) == 0
+//@   ensures forall i int :: 0 <= i && i < len(orig) ==> fresh(result[i]) && val(result[i]) == old(val(orig[i]))
+//@   ensures forall i, j int :: 0 <= i && i < j && j < len(orig) ==> result[i] != result[j]
+//@   loop 1
+//@     modifies clone[*]
+//@     invariant len(clone) == len(orig) && fresh(arr(clone)) && off(clone) == 0
+//@     invariant forall k int :: 0 <= k && k < $i ==> fresh(clone[k]) && val(clone[k]) == old(val(orig[k]))
+//@     invariant forall k, l int :: 0 <= k && k < l && l < $i ==> clone[k] != clone[l]
+
+// ---------------------------------------------------------------------------
+// Channel state machine (C01, C09)
+// ---------------------------------------------------------------------------
+
+// verifyOK(a, s, sig): channel.Verify(a, s, sig) returns (true, nil).
+// ownSig(s, sig): sig was returned without error by channel.Sign for one of the
+// machine's own accounts on state s.
+//@ ghost func verifyOK(a wallet.Address, s *State, sig wallet.Sig) bool
+//@ ghost func ownSig(s *State, sig wallet.Sig) bool
+
+//@ func Verify
+//@   trusted
+//@   ensures (result0 && result1 == nil) <==> verifyOK(a, state, sig)
+
+//@ func Sign
+//@   trusted
+//@   ensures result1 == nil ==> ownSig(s, result0) && result0 != nil
+
+//@ pred signing(p Phase) = p == InitSigning || p == Signing || p == Progressing
+
+//@ pred validTr(f Phase, t Phase) =
+//@   (f == InitActing && t == InitSigning) || (f == InitSigning && t == Funding) || (f == Funding && t == Acting) ||
+//@   (f == Acting && t == Signing) || (f == Signing && t == Acting) || (f == Signing && t == Final) ||
+//@   (f == Funding && t == Registering) || (f == Acting && t == Registering) || (f == Signing && t == Registering) ||
+//@   (f == Final && t == Registering) || (f == Funding && t == Registered) || (f == Acting && t == Registered) ||
+//@   (f == Signing && t == Registered) || (f == Final && t == Registered) || (f == Registering && t == Registered) ||
+//@   (f == Registered && t == Withdrawing) || (f == Registered && t == Progressed) || (f == Progressing && t == Progressed) ||
+//@   (f == Progressed && t == Withdrawing) || (f == Withdrawing && t == Withdrawn)
+
+//@ global validPhaseTransitions != nil && forall f, t Phase :: has(validPhaseTransitions, key(f, t)) <==> validTr(f, t)
+//@ global len(signingPhases) == 3 && signingPhases[0] == InitSigning && signingPhases[1] == Signing && signingPhases[2] == Progressing
+
+// auth(m, i, s, sig): sig is an authenticated signature of participant i on s:
+// it verifies for every address of that participant, or it is the machine's own
+// signature in its own slot.
+//@ pred auth(m *machine, i int, s *State, sig wallet.Sig) =
+//@   (i == m.idx && ownSig(s, sig)) ||
+//@   (forall b wallet.BackendID :: has(m.params.Parts[i], b) ==> verifyOK(m.params.Parts[i][b], s, sig))
+
+//@ pred sigsAuth(m *machine, s *State, sigs []wallet.Sig) =
+//@   forall i int :: 0 <= i && i < len(sigs) && sigs[i] != nil ==> auth(m, i, s, sigs[i])
+//@ pred allSigned(m *machine, s *State, sigs []wallet.Sig) =
+//@   forall i int :: 0 <= i && i < len(sigs) ==> sigs[i] != nil && auth(m, i, s, sigs[i])
+//@ pred allNil(sigs []wallet.Sig) =
+//@   forall i int :: 0 <= i && i < len(sigs) ==> sigs[i] == nil
+
+// The object invariant of the machine.
+//@ pred machInv(m *machine) =
+//@   m.idx < len(m.params.Parts) && len(m.params.Parts) <= 65535 &&
+//@   (signing(m.phase) ==> m.stagingTX.State != nil) &&
+//@   (m.stagingTX.State != nil ==> len(m.stagingTX.Sigs) == len(m.params.Parts) && sigsAuth(m, m.stagingTX.State, m.stagingTX.Sigs)) &&
+//@   (m.stagingTX.Sigs != nil ==> arr(m.stagingTX.Sigs) != arr(m.currentTX.Sigs)) &&
+//@   (m.currentTX.State != nil ==> len(m.currentTX.Sigs) == len(m.params.Parts) &&
+//@        (allSigned(m, m.currentTX.State, m.currentTX.Sigs) || allNil(m.currentTX.Sigs))) &&
+//@   (m.phase >= Funding ==> m.currentTX.State != nil) && m.phase <= Withdrawn
+
+// sameTX: the two transactions are the same (state pointer, signature slice header).
+//@ pred sameTX(a Transaction, b Transaction) = a.State == b.State && a.Sigs == b.Sigs
+//@ pred emptyTX(a Transaction) = a.State == nil && a.Sigs == nil
+
+// unchanged(m): phase, staged and current transaction, including the contents of both signature lists, are as before the call.
+//@ pred sigsSame(s []wallet.Sig) = forall i int :: 0 <= i && i < len(s) ==> s[i] == old(s[i])
+//@ pred unchanged(m *machine) =
+//@   m.phase == old(m.phase) && sameTX(m.stagingTX, old(m.stagingTX)) && sameTX(m.currentTX, old(m.currentTX)) &&
+//@   sigsSame(m.stagingTX.Sigs) && sigsSame(m.currentTX.Sigs)
+
+//@ func inPhase
+//@   ensures result <==> exists i int :: 0 <= i && i < len(phases) && phases[i] == phase
+//@   loop 1
+//@     invariant forall k int :: 0 <= k && k < $i ==> phases[k] != phase
+
+//@ func (*machine).AddSig
+//@   requires machInv(m) && idx < len(m.params.Parts)
+//@   modifies m.stagingTX.Sigs[idx]
+//@   ensures machInv(m)
+//@   ensures result == nil <==> old(signing(m.phase)) && old(m.stagingTX.Sigs[idx]) == nil &&
+//@           (forall b wallet.BackendID :: has(m.params.Parts[idx], b) ==> verifyOK(m.params.Parts[idx][b], m.stagingTX.State, sig))
+//@   ensures result == nil ==> m.stagingTX.Sigs[idx] == sig
+//@   ensures result != nil ==> unchanged(m)
+//@   ensures m.phase == old(m.phase) && sameTX(m.stagingTX, old(m.stagingTX)) && sameTX(m.currentTX, old(m.currentTX))
+//@   loop 1
+//@     modifies
+//@     invariant forall b wallet.BackendID :: visited(b) ==> verifyOK(m.params.Parts[idx][b], m.stagingTX.State, sig)
+
+//@ pred allNonNil(s []wallet.Sig) = forall i int :: 0 <= i && i < len(s) ==> s[i] != nil
+
+//@ func (*machine).Sig
+//@   requires machInv(m)
+//@   modifies m.stagingTX.Sigs[m.idx]
+//@   ensures machInv(m)
+//@   ensures m.phase == old(m.phase) && sameTX(m.stagingTX, old(m.stagingTX)) && sameTX(m.currentTX, old(m.currentTX))
+//@   ensures !old(signing(m.phase)) ==> err != nil && sig == nil && unchanged(m)
+//@   ensures old(signing(m.phase)) && old(m.stagingTX.Sigs[m.idx]) != nil ==> err == nil && sig == old(m.stagingTX.Sigs[m.idx]) && unchanged(m)
+//@   ensures old(signing(m.phase)) && old(m.stagingTX.Sigs[m.idx]) == nil && err == nil && sig != nil ==>
+//@           ownSig(m.stagingTX.State, sig) && m.stagingTX.Sigs[m.idx] == sig
+//@   ensures m.stagingTX.Sigs[m.idx] != old(m.stagingTX.Sigs[m.idx]) ==> old(signing(m.phase)) && ownSig(m.stagingTX.State, m.stagingTX.Sigs[m.idx])
+//@   loop 1
+//@     modifies
+//@     invariant err != nil || sig == nil
+
+//@ func (*machine).enableStaged
+//@   inline
+//@   loop 1
+//@     invariant forall k int :: 0 <= k && k < $i ==> m.stagingTX.Sigs[k] != nil
+
+// promoted(m, to): the staged transaction became the current one and the machine is in phase to.
+//@ pred promoted(m *machine, to Phase) =
+//@   m.phase == to && sameTX(m.currentTX, old(m.stagingTX)) && emptyTX(m.stagingTX) &&
+//@   allSigned(m, m.currentTX.State, m.currentTX.Sigs) && sigsSame(m.currentTX.Sigs)
+
+//@ func (*machine).EnableInit
+//@   requires machInv(m)
+//@   modifies m.phase, m.stagingTX, m.currentTX, m.prevTXs, m.prevTXs[*]
+//@   ensures machInv(m)
+//@   ensures result == nil <==> old(m.phase == InitSigning && !m.stagingTX.State.IsFinal && allNonNil(m.stagingTX.Sigs))
+//@   ensures result == nil ==> promoted(m, Funding)
+//@   ensures result != nil ==> unchanged(m)
+
+//@ func (*machine).EnableUpdate
+//@   requires machInv(m)
+//@   modifies m.phase, m.stagingTX, m.currentTX, m.prevTXs, m.prevTXs[*]
+//@   ensures machInv(m)
+//@   ensures result == nil <==> old(m.phase == Signing && !m.stagingTX.State.IsFinal && allNonNil(m.stagingTX.Sigs))
+//@   ensures result == nil ==> promoted(m, Acting)
+//@   ensures result != nil ==> unchanged(m)
+
+//@ func (*machine).EnableFinal
+//@   requires machInv(m)
+//@   modifies m.phase, m.stagingTX, m.currentTX, m.prevTXs, m.prevTXs[*]
+//@   ensures machInv(m)
+//@   ensures result == nil <==> old(m.phase == Signing && m.stagingTX.State.IsFinal && allNonNil(m.stagingTX.Sigs))
+//@   ensures result == nil ==> promoted(m, Final)
+//@   ensures result != nil ==> unchanged(m)
+
+//@ func (*machine).DiscardUpdate
+//@   requires machInv(m)
+//@   modifies m.phase, m.stagingTX
+//@   ensures machInv(m)
+//@   ensures result == nil <==> old(m.phase) == Signing
+//@   ensures result == nil ==> m.phase == Acting && emptyTX(m.stagingTX) && sameTX(m.currentTX, old(m.currentTX)) && sigsSame(m.currentTX.Sigs)
+//@   ensures result != nil ==> unchanged(m)
+
+// onlyPhase(m, to): nothing but the phase changed.
+//@ pred onlyPhase(m *machine, to Phase) =
+//@   m.phase == to && sameTX(m.stagingTX, old(m.stagingTX)) && sameTX(m.currentTX, old(m.currentTX)) &&
+//@   sigsSame(m.stagingTX.Sigs) && sigsSame(m.currentTX.Sigs)
+
+//@ func (*machine).SetFunded
+//@   requires machInv(m)
+//@   modifies m.phase
+//@   ensures machInv(m)
+//@   ensures result == nil <==> old(m.phase) == Funding
+//@   ensures result == nil ==> onlyPhase(m, Acting)
+//@   ensures result != nil ==> unchanged(m)
+
+//@ func (*machine).SetRegistering
+//@   requires machInv(m)
+//@   modifies m.phase
+//@   ensures machInv(m)
+//@   ensures result == nil <==> old(m.phase) >= Funding
+//@   ensures result == nil ==> onlyPhase(m, Registering)
+//@   ensures result != nil ==> unchanged(m)
+
+//@ func (*machine).SetRegistered
+//@   requires machInv(m)
+//@   modifies m.phase
+//@   ensures machInv(m)
+//@   ensures result == nil <==> old(m.phase) >= Funding
+//@   ensures result == nil ==> onlyPhase(m, Registered)
+//@   ensures result != nil ==> unchanged(m)
+
+//@ func (*machine).SetProgressing
+//@   requires machInv(m) && state != nil
+//@   modifies m.phase, m.stagingTX
+//@   ensures machInv(m)
+//@   ensures result == nil <==> old(m.phase == Registered || m.phase == Progressing || m.phase == Progressed)
+//@   ensures result == nil ==> m.phase == Progressing && m.stagingTX.State == state && fresh(arr(m.stagingTX.Sigs)) &&
+//@           len(m.stagingTX.Sigs) == len(m.params.Parts) && allNil(m.stagingTX.Sigs) &&
+//@           sameTX(m.currentTX, old(m.currentTX)) && sigsSame(m.currentTX.Sigs)
+//@   ensures result != nil ==> unchanged(m)
+
+//@ func (*machine).SetProgressed
+//@   requires machInv(m) && e != nil && e.State != nil
+//@   modifies m.phase, m.stagingTX, m.currentTX, m.prevTXs, m.prevTXs[*]
+//@   ensures machInv(m)
+//@   ensures result == nil && m.phase == Progressed && emptyTX(m.stagingTX)
+//@   ensures m.currentTX.State == e.State && fresh(arr(m.currentTX.Sigs)) && len(m.currentTX.Sigs) == len(m.params.Parts) && allNil(m.currentTX.Sigs)
+
+//@ func (*machine).SetWithdrawing
+//@   requires machInv(m)
+//@   modifies m.phase
+//@   ensures machInv(m)
+//@   ensures result == nil <==> old(m.phase == Final || m.phase == Registered || m.phase == Progressed || m.phase == Withdrawing)
+//@   ensures result == nil ==> onlyPhase(m, Withdrawing)
+//@   ensures result != nil ==> unchanged(m)
+
+//@ func (*machine).SetWithdrawn
+//@   requires machInv(m)
+//@   modifies m.phase
+//@   ensures machInv(m)
+//@   ensures result == nil <==> old(m.phase) == Withdrawing
+//@   ensures result == nil ==> onlyPhase(m, Withdrawn)
+//@   ensures result != nil ==> unchanged(m)
